@@ -3,12 +3,12 @@ INVARIANT AllOK
 VIEW McView
 CHECK_DEADLOCK FALSE
 CONSTANTS
-  Sizes <- DumpSizes
+  Sizes <- DumpSizesQ
   Limits <- Lim0
   Fills <- DumpFills
-  Alphabet <- DumpAlphabet
+  Alphabet <- DumpKnownAlphabet
   Resizes <- NoResize
-  MaxDepth = 4
-  Emit = TRUE
+  MaxDepth = 6
+  Emit = FALSE
   CheckDump = TRUE
-  ExcuseKnown = TRUE
+  ExcuseKnown = FALSE
